@@ -207,6 +207,21 @@ pub fn pairwise_flags(rng: &mut Rng, bits: &[u32]) -> Vec<u32> {
     rows
 }
 
+/// Pairwise rows plus the rows a t-way covering array of this size cannot promise: no flag, every
+/// single flag, and every flag together with verbose mode.
+pub fn flag_rows(rng: &mut Rng, bits: &[u32]) -> Vec<u32> {
+    let mut rows = pairwise_flags(rng, bits);
+    for b in bits {
+        rows.push(1 << b);
+        if bits.contains(&crate::util::BIT_VERB) {
+            rows.push((1 << b) | (1 << crate::util::BIT_VERB));
+        }
+    }
+    let mut seen = HashSet::new();
+    rows.retain(|r| seen.insert(normalise_flags(*r)));
+    rows
+}
+
 /// Surrogate escaping only makes sense with escaping (the CLI enforces it; the library ignores the flag otherwise).
 pub fn normalise_flags(bits: u32) -> u32 {
     if bits & (1 << BIT_ESC) == 0 {
